@@ -104,6 +104,11 @@ func backendProp(b backendSpec, meaning string) propFunc {
 			c.runColVec(r, "shape.colvec", inPkgs("hlsl", "ir"))
 			r.floor("shape.colvec", 5)
 		}
+		if b.Name == "glsl" || b.Name == "msl" {
+			r.Clauses = append(r.Clauses, depthLikeClause)
+			c.runDepthLike(r, "image.depthlike", inPkgs(b.Name))
+			r.floor("image.depthlike", 1)
+		}
 		if b.Name == "hlsl" || b.Name == "msl" {
 			r.Clauses = append(r.Clauses, indexLenClause)
 			c.runIndexLen(r, "shape.indexlen", inPkgs(b.Name))
